@@ -58,7 +58,9 @@ func (rt *runtime) cmplEvaluateNodeStatement(node nodeStatement) Value {
 		return emptyValue
 
 	case *nodeExpressionStatement:
-		return rt.cmplEvaluateNodeExpression(node.expression)
+		// GetValue of the expression (ES5 12.4): an unresolvable reference
+		// throws here, and the completion value is a value, not a reference.
+		return rt.cmplEvaluateNodeExpression(node.expression).resolve()
 
 	case *nodeForInStatement:
 		return rt.cmplEvaluateNodeForInStatement(node)
